@@ -134,3 +134,14 @@ claim("C20", "model_checking",
       "caller's dict must be unchanged; all image sizes at block boundaries.",
       "Boot datagram format as documented in boot.py; reference packer reads rig/boot/sark.struct with an independent parser.",
       "DESIGN.md section 4, C20")
+claim("C02", "exploration",
+      "Every placer (sequential, breadth-first, Hilbert with/without BFS order, RCM, random, annealing with the Python and the C kernel) "
+      "runs on: (unit) machines 1x1..3x3/5x1/1x5 x capacities x dead/exception chips x global/per-chip reservations with unit-demand "
+      "vertex sets up to and just beyond the free capacity and pinned vertices - every placer must succeed when the completeness clause "
+      "holds; (general) <=3 (thorough 4) vertices x all need tuples x 13 constraint sets (locations incl. dead/outside chips, same-chip "
+      "groups chained/duplicated/pinned) x nets with weights 0/1/2.5; (orders) the sequential placer with every vertex and chip order; "
+      "(tiny_random) deviation-bounded exploration (bound 2-3) of the owned random source. Results are judged by an independent "
+      "feasibility oracle (union-find groups, capacity after reservations, locations), only the two documented errors are accepted, "
+      "arguments must be unchanged, 60 s watchdog.",
+      "Annealer horizon cut by on_temperature_change; C kernel random stream only selectable by seed; machines <= 3x3 (thorough 5x5).",
+      "DESIGN.md section 4, C02")
